@@ -916,7 +916,8 @@ fn run_real(c: &RealCase, id: usize, work: &Path) -> Result<RealRun, String> {
         // the property's hypothesis is about the TRUE great-circle distance (the independent value; the implementation's
         // must agree with it - hygiene - and is never used to decide whether a claim is made): length >= distance, with
         // half a metre for the f32 noise of the estimate.  The triangle inequality then holds by itself.
-        if !(*len >= gf + 0.5) {
+        // (vertices at one and the same position: both distances are exactly 0, any length >= 0 will do)
+        if !(*len >= gf && (*len >= gf + 0.5 || gf == 0.0)) {
             metric_ok = false;
         }
     }
@@ -1550,6 +1551,72 @@ fn real_boundary() -> Vec<RealCase> {
                 }
                 out.push(c);
             }
+        }
+    }
+    // a zero-length connector (toll gate between two vertices at one position) carrying a per-edge surcharge, and the same
+    // with a 1 mm connector: the surcharge is charged to the edge although the distance feature does not move over it
+    for (name, gate_len) in [("surcharge_zero_length_edge", 0.0), ("surcharge_one_millimetre_edge", 0.001)] {
+        for gate_first in [true, false] {
+            for reverse in [false, true] {
+                let mut c = blank_case(name);
+                let (a, b) = ((30.0, 10.0), (30.125, 10.0));
+                let l = metric_len(a, b, 1.0);
+                c.speed_model = false;
+                c.du = Some("meters".into());
+                c.fdu = Some("meters".into());
+                if gate_first {
+                    // 0 -gate-> 1 (both at a) -> 2 (at b), against 0 -> 2 thirty metres longer
+                    c.coords = vec![a, a, b];
+                    c.edges = vec![(0, 1, gate_len, 50.0), (1, 2, l, 50.0), (0, 2, l + 30.0, 50.0), (2, 0, l, 50.0)];
+                } else {
+                    c.coords = vec![a, b, b];
+                    c.edges = vec![(1, 2, gate_len, 50.0), (0, 1, l, 50.0), (0, 2, l + 30.0, 50.0), (2, 0, l, 50.0)];
+                }
+                c.cfg_w = vec![("distance".to_string(), 1.0)];
+                c.cfg_v = vec![("distance".to_string(), Rate::Raw)];
+                c.cfg_n = Some(("distance".to_string(), vec![(0, 50.0)]));
+                c.s = 0;
+                c.t = 2;
+                c.reverse = reverse;
+                if reverse {
+                    std::mem::swap(&mut c.s, &mut c.t);
+                }
+                out.push(c);
+            }
+        }
+    }
+    // objectives so small that every edge costs less than Cost::MIN_COST (1e-10) but more than 0: such costs pass through
+    // unchanged (only non-positive costs are floored), so three 1.2 m hops still beat one longer edge
+    for (name, speed_model, wd, wt, direct) in [
+        ("tiny_costs_distance_1e-12", false, 1e-12, 0.0, 150.0),
+        ("tiny_costs_distance_1e-12_all_below_floor", false, 1e-12, 0.0, 50.0),
+        ("tiny_costs_distance_1e-14", false, 1e-14, 0.0, 150.0),
+        ("tiny_costs_time_hours_1e-6", true, 0.0, 1e-6, 6.0),
+        ("tiny_costs_blend", true, 1e-13, 1e-7, 6.0),
+    ] {
+        for reverse in [false, true] {
+            let mut c = blank_case(name);
+            let a = (-70.0, -33.0);
+            c.coords = vec![a, a, a, a];
+            c.edges = vec![(0, 1, 1.2, 50.0), (1, 2, 1.2, 50.0), (2, 3, 1.2, 50.0), (0, 3, direct, 50.0), (3, 0, 1.2, 50.0)];
+            c.speed_model = speed_model;
+            c.du = Some("meters".into());
+            c.fdu = Some("meters".into());
+            if speed_model {
+                c.tu = Some("hours".into());
+                c.cfg_w = w(wd, wt);
+                c.cfg_v = raw();
+            } else {
+                c.cfg_w = vec![("distance".to_string(), wd)];
+                c.cfg_v = vec![("distance".to_string(), Rate::Raw)];
+            }
+            c.s = 0;
+            c.t = 3;
+            c.reverse = reverse;
+            if reverse {
+                std::mem::swap(&mut c.s, &mut c.t);
+            }
+            out.push(c);
         }
     }
     // across the 180th meridian: the great-circle estimate is periodic in longitude
